@@ -4,7 +4,7 @@ use super::rec::*;
 use super::util::*;
 use crate::context::{Feature, TargetAddress};
 use std::collections::HashMap;
-use std::sync::Arc;
+use std::sync::{Arc, Mutex};
 
 fn members(n: usize) -> Vec<Arc<RecConnector>> {
     (0..n).map(|i| RecConnector::new(&format!("m{}", i), &[Feature::TcpForward])).collect()
@@ -183,6 +183,60 @@ pub async fn run(args: &Args) {
                         by_key.insert(k, hit[0]);
                     }
                 }
+            }
+            // the same law when the selections run on many worker threads at once: the member chosen for a key value is a function
+            // of the value alone - not of the task, the thread or the moment - and agrees with the sequential selections above
+            if n >= 2 {
+                let seen: Arc<Mutex<Vec<(String, Option<String>)>>> = Arc::new(Mutex::new(vec![]));
+                let mut hs = vec![];
+                for t in 0..16u64 {
+                    let state = state.clone();
+                    let lb = lb.clone();
+                    let pool = pool.clone();
+                    let seen = seen.clone();
+                    let key = key.to_string();
+                    let mut r = Rng::new(args.seed * 7919 + t);
+                    hs.push(tokio::spawn(async move {
+                        for _ in 0..40 {
+                            let req = r.pick(&pool).clone();
+                            let k = key_of(&key, &req);
+                            let ctx = make_ctx(&state, &req).await;
+                            let _ = lb.clone().connect(state.clone(), ctx.clone()).await;
+                            let rec = ctx.read().await.props().connector.clone();
+                            seen.lock().unwrap().push((k, rec));
+                            if r.chance(1, 4) {
+                                tokio::task::yield_now().await;
+                            }
+                        }
+                    }));
+                }
+                for h in hs {
+                    let _ = h.await;
+                }
+                for r in &recs {
+                    r.take();
+                }
+                out.case();
+                let seen = seen.lock().unwrap();
+                out.count("concurrent_hashby_selections", seen.len() as u64);
+                let mut conc: HashMap<String, String> = HashMap::new();
+                for (k, rec) in seen.iter() {
+                    let m = rec.clone().unwrap_or_default();
+                    let prior = by_key.get(k).map(|&i| names[i].clone()).or_else(|| conc.get(k).cloned());
+                    match prior {
+                        Some(p) if p != m => {
+                            out.violation(
+                                "hashBy: two requests with the same key value were sent to different members (selections running concurrently on several worker threads)".into(),
+                                serde_json::json!({"key_expr": key, "key_value": k, "n": n, "members": [p, m]}),
+                            );
+                            break;
+                        }
+                        _ => {
+                            conc.insert(k.clone(), m);
+                        }
+                    }
+                }
+                out.nontrivial(&("hashBy-concurrent", n, key));
             }
             out.nontrivial(&("hashBy", n, key));
             if n == 4 && *key == "request.target" {
